@@ -128,18 +128,64 @@ def runType (t : Ty) : String :=
     kv "i.droot" (rootO d),
     kv "i.dread" (optStr valStr (d.bind (Impl.readVal H t)))]
 
+/-- history operations of the protocol: the model's ops plus two compositions used by the harness -/
+inductive HOp where
+  | op (o : Impl.Op)
+  | cpy (i j : Nat)                 -- x[i] = x[j] / x.f_i = x.f_j  (an existing sub-view is assigned)
+  | sets (i : Nat) (vs : List Val)  -- x[i:i+k] = vs
+
+def toHOp : Sexp → Option HOp
+  | .list [.atom "cpy", i, j] => do pure (.cpy (← atomNat i) (← atomNat j))
+  | .list [.atom "sets", i, .list (.atom "s" :: vs)] => do pure (.sets (← atomNat i) (← toVals vs))
+  | s => (toOp s).map .op
+
+/-- the elements / fields of a sequence or container value -/
+def seqElems : Val → List Val
+  | .seq vs => vs
+  | _ => []
+
+/-- expansion into model ops in the current state, and the hashing bound of the whole step -/
+def expandHOp (t : Ty) (v : Val) : HOp → Option (List Impl.Op × Nat)
+  | .op o => some ([o], costBound t o)
+  | .cpy i j =>
+    match (seqElems v)[j]? with
+    | some x =>
+      -- a tree-backed sub-view is shared and already hashed; byte-array views are values: their
+      -- backing is rebuilt by `get_backing()` and has to be hashed again
+      let elemTy : Option Ty := match t with
+        | .vector et _ => some et
+        | .list et _ => some et
+        | .container fs => fs[j]?
+        | _ => none
+      let extra := match elemTy with
+        | some (.bytevector k) => (match Impl.construct H (.bytevector k) x with | some nd => pairCount nd | none => 0)
+        | some (.bytelist k) => (match Impl.construct H (.bytelist k) x with | some nd => pairCount nd | none => 0)
+        | _ => 0
+      some ([.set i x], Impl.treeDepth t + extra)
+    | none => none
+  | .sets i vs =>
+    let ops := vs.zipIdx.map fun (x, k) => Impl.Op.set (i + k) x
+    some (ops, (ops.map (costBound t)).sum)
+
 /-- a mutation history: the spec value and the impl tree side by side; a failed op leaves both unchanged -/
-def runHist (t : Ty) (v0 : Val) (ops : List Impl.Op) : String :=
+def runHist (t : Ty) (v0 : Val) (ops : List HOp) : String :=
   let n0 := Impl.construct H t v0
-  let rec go (k : Nat) (v : Val) (n : Option Node) (ops : List Impl.Op) (acc : List String) : List String :=
+  let rec go (k : Nat) (v : Val) (n : Option Node) (ops : List HOp) (acc : List String) : List String :=
     match ops with
     | [] => acc.reverse
-    | op :: rest =>
-      let sv := Spec.applyOp t v op
-      let inn := n.bind fun nn => Impl.apply H t nn op
+    | hop :: rest =>
+      let expanded := expandHOp t v hop
+      -- apply the sub-operations in order; all must succeed for the step to succeed
+      let (sv, inn) : Option Val × Option Node :=
+        match expanded with
+        | none => (none, none)
+        | some (subops, _) =>
+          subops.foldl (fun (acc : Option Val × Option Node) o =>
+            (acc.1.bind fun vv => Spec.applyOp t vv o, acc.2.bind fun nn => Impl.apply H t nn o)) (some v, n)
       let v' := sv.getD v
       let n' := match inn with | some x => some x | none => n
       let p := toString k
+      let firstOp : Option Impl.Op := match expanded with | some (o :: _, _) => some o | _ => none
       let out := [
         kv (p ++ ".s") (optStr valStr sv),
         kv (p ++ ".scur") (valStr v'),
@@ -150,8 +196,11 @@ def runHist (t : Ty) (v0 : Val) (ops : List Impl.Op) : String :=
         kv (p ++ ".iread") (optStr valStr (n'.bind (Impl.readVal H t))),
         kv (p ++ ".ibytes") (hexO ((n'.bind (Impl.serTree H t)).map (·.1))),
         kv (p ++ ".ishape") (optStr (fun x => hexOf ((shapeDigest x).take 8)) n'),
-        kv (p ++ ".bound") (toString (costBound t op)),
-        kv (p ++ ".tgt") (optStr toString (n.bind fun nn => targetGindex t nn op))]
+        kv (p ++ ".bound") (match expanded with | some (_, b) => toString b | none => "0"),
+        kv (p ++ ".tgt") (match hop with
+          | .op o => optStr toString (n.bind fun nn => targetGindex t nn o)
+          | _ => "-")]
+      let _ := firstOp
       go (k + 1) v' n' rest (out.reverse ++ acc)
   join (kv "i.root0" (rootO n0) :: go 0 v0 n0 ops [])
 
@@ -222,6 +271,21 @@ def runTreeCmd (n : Node) (k : Nat) (cmd : Sexp) : Option String :=
       let newPairs := ((h5.cells.toList.drop h4.cells.size).filter fun c => match c with | .pair _ _ _ => true | _ => false).length
       pure (kv (p ++ ".hcost") (toString c1 ++ "/" ++ toString c2 ++ "/" ++ toString (h6.hashCalls - h3.hashCalls)
         ++ "/" ++ hexOf r ++ "/" ++ toString newPairs))
+  | .list (.atom "vseq" :: cmds) => do
+    let src := Virtual.srcOfDict (Virtual.dictOf H n)
+    let outs ← cmds.mapM fun c =>
+      match c with
+      | .list [.atom "get", g] => do
+        let g ← atomNat g
+        pure (optStr (fun m => hexOf (Virtual.MNode.root H m)) (Virtual.getterM src (.virt (n.root H)) g))
+      | .list [.atom "set", g, e, v] => do
+        let g ← atomNat g
+        let e ← atomNat e
+        let v ← toTree H v
+        pure (optStr (fun m => hexOf (Virtual.MNode.root H m))
+          (Virtual.setterM H src (.virt (n.root H)) g (e != 0) (Virtual.MNode.ofNode v)))
+      | _ => none
+    pure (kv (p ++ ".vseq") (String.intercalate "," outs))
   | .list [.atom "summ", g] => do
     let g ← atomNat g
     let r := summarizeInto H n g
@@ -282,6 +346,7 @@ def runPath (t : Ty) (v : Option Val) (keys : List Key) : String :=
 
 def toSOp : Sexp → Option (Impl.SOp ⊕ Nat)
   | .list [.atom "child", r, k] => do pure (.inl (.child (← atomNat r) (← atomNat k)))
+  | .list [.atom "childs", r, k] => do pure (.inl (.child (← atomNat r) (← atomNat k)))
   | .list [.atom "mut", r, op] => do pure (.inl (.mutate (← atomNat r) (← toOp op)))
   | .list [.atom "bad", r, op] => do pure (.inl (.mutate (← atomNat r) (← toOp op)))
   | .list [.atom "copy", r] => do pure (.inl (.copy (← atomNat r)))
@@ -382,7 +447,7 @@ def viewLen (t : Ty) (n : Node) : Option Nat :=
   | _ => none
 
 inductive POp where
-  | read | elem (i : Nat) | len | bytes | root | mut (op : Impl.Op)
+  | read | elem (i : Nat) | len | bytes | root | mut (op : HOp)
 
 def toPOp : Sexp → Option POp
   | .list [.atom "read"] => some .read
@@ -390,7 +455,7 @@ def toPOp : Sexp → Option POp
   | .list [.atom "len"] => some .len
   | .list [.atom "bytes"] => some .bytes
   | .list [.atom "root"] => some .root
-  | s => (toOp s).map .mut
+  | s => (toHOp s).map .mut
 
 def okStr (o : Option String) : String := match o with | some s => "ok:" ++ s | none => "err"
 
@@ -407,8 +472,18 @@ def runPOps (t : Ty) (n0 : Node) (ops : List POp) (key : String) : List String :
         | .len => (n, okStr ((viewLen t n).map toString))
         | .bytes => (n, okStr ((Impl.serTree H t n).map fun p => hexOf p.1))
         | .root => (n, "ok:" ++ hexOf (n.root H))
-        | .mut o =>
-          match Impl.apply H t n o with
+        | .mut ho =>
+          -- compositions (cpy / sets) are expanded with the content read from the current tree
+          let res : Option Node :=
+            match ho with
+            | .cpy i j =>
+              -- `x[i] = x[j]`: the sub-view's backing node is written at position i (no content is read)
+              (Impl.childOf H t n j).bind fun (c : Ty × Node) => Impl.setChildNode H t n i c.2
+            | _ =>
+              let cur := (Impl.readVal H t n).getD .none
+              (expandHOp t cur ho).bind fun (p : List Impl.Op × Nat) =>
+                p.1.foldl (fun (acc : Option Node) o => acc.bind fun nn => Impl.apply H t nn o) (some n)
+          match res with
           | some m => (m, "ok:" ++ hexOf (m.root H))
           | none => (n, "err")
       go (k + 1) n' rest (kv (toString k ++ "." ++ key) res :: acc)
@@ -440,7 +515,7 @@ def runCase (xs : List Sexp) : Option String :=
   match xs with
   | [.atom "val", t, v] => do pure (runVal (← toTy t) (← toVal v))
   | [.atom "type", t] => do pure (runType (← toTy t))
-  | .atom "hist" :: t :: v :: ops => do pure (runHist (← toTy t) (← toVal v) (← ops.mapM toOp))
+  | .atom "hist" :: t :: v :: ops => do pure (runHist (← toTy t) (← toVal v) (← ops.mapM toHOp))
   | .atom "store" :: t :: v :: ops => do pure (runStore (← toTy t) (← toVal v) (← ops.mapM toSOp))
   | .atom "partial" :: t :: v :: .list (.atom "pos" :: gs) :: ops => do
     pure (runPartial (← toTy t) (← toVal v) (← gs.mapM atomNat) (← ops.mapM toPOp))
@@ -459,6 +534,8 @@ def runCase (xs : List Sexp) : Option String :=
   | [.atom "uinv", w, a] => do
     let w ← atomNat w
     pure (kv "r" (optStr (fun r => toString r ++ ":" ++ toString w) (Impl.invert w (← atomNat a))))
+  | [.atom "uctorw", w, _, a] => do
+    pure (kv "r" (optStr toString (Impl.wrap (← atomNat w) (← atomInt a))))
   | [.atom "uctor", w, a] => do
     pure (kv "r" (optStr toString (Impl.wrap (← atomNat w) (← atomInt a))))
   | [.atom "eq2", _, _, _] => some "ok=1"
